@@ -51,8 +51,12 @@ var goodNames = []string{"x.go", "y.go", "go.mod", "LICENSE", "README.md", "a/x.
 	// sibling directories whose names are string prefixes of one another (in any zip order)
 	"cmd-tools/x.go", "cmd/main.go", "cmd.old/y.go", "a.b/f.go", "ab/f.go", "abc/x/f.go", "sub-dir/q.go", "sub dir/r.go", "deep/er/stillmore/g.go", "a/b+c/z.go", "a/b,c/z.go", "cm/q.go",
 	// names that merely end in go.mod or LICENSE
-	"cargo.mod", "testdata/algo.mod", "x.GO.MOD", "a/notgo.mod", "MYLICENSE", "a/LICENSE"}
-var badNames = []string{"..", "../x", "../../x", "../../../escape.txt", "a/../../x", "a/../b", "/abs", "/etc/passwd", "a\\b", "..\\x", "", ".", "./x", "a/", "a//b", "a/./b", "con", "aux.go", "NUL/x", "a~1", "f|g", "f:g", "trailing.", "x.go/", "x.go/child", "A/x.go", "a/X.GO", "README.MD", "readme.md", "GO.MOD", "Go.mod", "sub/go.mod", "a/GO.MOD", "a/b/go.mod", "deep/er/still/go.mod", "a/b/c/Go.Mod", "go.mod/x", "x\x00y", "\xff", "K.go", "k.go", "\u212a/x.go", "\u212a", "k/y.go", "k", "\u017f/x.go", "s", "S/z.go", "\u212b/q", "\u00e5", "ﬀ", "ff", "a/b/", "a/b", "a", "LICENSE/", "deep/", "deep/er"}
+	"cargo.mod", "testdata/algo.mod", "x.GO.MOD", "a/notgo.mod", "MYLICENSE", "a/LICENSE",
+	// names that begin with dots without being dot or dot-dot
+	"..data/config.yaml", "..keep", "..2024_01_01/x.txt", "sub/..inner/y.txt", "...x"}
+var badNames = []string{"..", "../x", "../../x", "../../../escape.txt", "a/../../x", "a/../b", "/abs", "/etc/passwd", "a\\b", "..\\x", "", ".", "./x", "a/", "a//b", "a/./b", "con", "aux.go", "NUL/x", "a~1", "f|g", "f:g", "trailing.", "x.go/", "x.go/child", "A/x.go", "a/X.GO", "README.MD", "readme.md", "GO.MOD", "Go.mod", "sub/go.mod", "a/GO.MOD", "a/b/go.mod", "deep/er/still/go.mod", "a/b/c/Go.Mod", "go.mod/x", "x\x00y", "\xff", "K.go", "k.go", "\u212a/x.go", "\u212a", "k/y.go", "k", "\u017f/x.go", "s", "S/z.go", "\u212b/q", "\u00e5", "ﬀ", "ff", "a/b/", "a/b", "a", "LICENSE/", "deep/", "deep/er",
+	// reserved device names with several suffixes (the name before the FIRST dot counts)
+	"pkg/aux.tar.gz", "pkg/NUL.pb.go", "com1.conf.d/x.go", "lpt9.a.b.c", "com9", "a/LPT9.txt"}
 var prefixes = []string{"GOOD", "GOOD", "GOOD", "GOOD", "GOOD", "GOOD", "GOOD", "GOOD", "", "UPPER", "OTHERVERSION", "NOSLASH", "OTHERPATH", "DOUBLE"}
 
 var ids = [][2]string{{"example.com/m", "v1.0.0"}, {"example.com/m", "v1.0.0"}, {"example.com/Mixed/Case", "v0.1.0"}, {"example.com/m/v2", "v2.0.0"}, {"gopkg.in/yaml.v2", "v2.4.0"}}
